@@ -351,6 +351,9 @@ fn body_readers(prop: &'static str, case: &Case) -> RunOut {
     e.check_publications();
     let evs: Vec<ReaderEvent> = events.lock().unwrap().clone();
     check_reader_events(&mut e, &evs, prop);
+    for ev in evs.iter().filter(|x| x.reload).take(3) {
+        e.out.note(format!("reader event: {} reloaded reader {} during storage ops {}..{} (steps {}..{}) and saw uids {:?}", ev.thread, ev.reader, ev.start_seq, ev.end_seq, ev.start_step, ev.end_step, ev.result.as_ref().map(|m| m.keys().cloned().collect::<Vec<_>>()).unwrap_or_default()));
+    }
     let overlapped = evs.iter().filter(|x| x.reload && x.end_seq > x.start_seq).count() as u64;
     e.out.probe_n("reader_events", evs.len() as u64);
     e.out.nontrivial = e.out.commits_ok >= 1 && overlapped >= 1;
@@ -1044,6 +1047,9 @@ fn body_damage(case: &Case) -> RunOut {
         }
         for (what, damaged) in damages {
             cases += 1;
+            if cases % 1009 == 1 {
+                e.out.note(format!("damage case: {what} of {} ({} bytes, body {body_len})", f.display(), data.len()));
+            }
             let mut img2 = img.clone();
             img2.insert(f.clone(), damaged);
             let res = catch(|| validate(&img2));
